@@ -4,7 +4,19 @@ mod c01;
 mod c02;
 mod c04;
 mod c05;
+mod c06;
+mod c07;
+mod c08;
+mod c09;
+mod c13;
+mod txcheck;
 mod c10;
+mod c11;
+mod c12;
+mod entropy;
+mod c15;
+mod c20;
+mod tdcheck;
 mod c03;
 mod c14;
 mod mcutil;
@@ -24,7 +36,16 @@ fn main() {
         "C03" => c03::run(ctx),
         "C04" => c04::run(ctx),
         "C05" => c05::run(ctx),
+        "C06" => c06::run(ctx),
+        "C07" => c07::run(ctx),
+        "C08" => c08::run(ctx),
+        "C09" => c09::run(ctx),
         "C10" => c10::run(ctx),
+        "C11" => c11::run(ctx),
+        "C12" => c12::run(ctx),
+        "C13" => c13::run(ctx),
+        "C15" => c15::run(ctx),
+        "C20" => c20::run(ctx),
         "C14" => c14::run(ctx),
         _ => { eprintln!("unknown property {id}"); std::process::exit(2); }
     }
